@@ -9,6 +9,7 @@ package main
 import (
 	"bufio"
 	"bytes"
+	"context"
 	"encoding/json"
 	"fmt"
 	"io"
@@ -375,6 +376,119 @@ func (h *apiHarness) op(f []string) (res string) {
 			}
 		}
 		return "expire " + strings.Join(ids, ",")
+	case "lagget": // lagget <name> <authspec> <lastseen> <lagid> <ms>: GET on a node whose output stream lags behind
+		// the node has stored the batches up to <lagid> when the request arrives and catches up while it is served
+		hdr := map[string]string{}
+		if v, ok := h.authHeader(f[1], f[2]); ok {
+			hdr["X-Session-Auth"] = v
+		}
+		ms, _ := strconv.Atoi(f[5])
+		real := outputStream
+		// `@k`: position / id of the k-th message (0-based) of this session's stream; `@k-`: the id before it
+		sidn, _ := strconv.ParseUint(h.sid(f[1]), 0, 64)
+		var mine []robust.Id
+		{
+			c0, cc := context.WithCancel(context.Background())
+			cc()
+			for last := uint64(0); ; {
+				msgs := real.GetNext(c0, robust.Id{Id: last})
+				if len(msgs) == 0 {
+					break
+				}
+				last = msgs[0].Id.Id
+				for _, m := range msgs {
+					if m.InterestingFor[sidn] {
+						mine = append(mine, m.Id)
+					}
+				}
+			}
+		}
+		sym := func(a string) (robust.Id, bool) {
+			if !strings.HasPrefix(a, "@") {
+				return robust.Id{}, false
+			}
+			minus := strings.HasSuffix(a, "-")
+			k, _ := strconv.Atoi(strings.TrimSuffix(a[1:], "-"))
+			if k >= len(mine) {
+				k = len(mine) - 1
+			}
+			if k < 0 {
+				return robust.Id{}, true
+			}
+			id := mine[k]
+			if minus {
+				id = robust.Id{Id: id.Id - 1}
+			}
+			return id, true
+		}
+		if id, ok := sym(f[3]); ok {
+			f[3] = fmt.Sprintf("%d.%d", id.Id, id.Reply)
+		}
+		lagid := uint64(0)
+		if id, ok := sym(f[4]); ok {
+			lagid = id.Id
+		} else {
+			lagid = iu64(f[4])
+		}
+		lagdir, err := os.MkdirTemp(h.dir, "lag-")
+		if err != nil {
+			return "error " + err.Error()
+		}
+		defer os.RemoveAll(lagdir)
+		lag, err := outputstream.NewOutputStream(lagdir)
+		if err != nil {
+			return "error " + err.Error()
+		}
+		cctx, ccancel := context.WithCancel(context.Background())
+		ccancel()
+		var later [][]outputstream.Message
+		for last := uint64(0); ; {
+			msgs := real.GetNext(cctx, robust.Id{Id: last})
+			if len(msgs) == 0 {
+				break
+			}
+			last = msgs[0].Id.Id
+			if last <= lagid {
+				lag.Add(msgs)
+			} else {
+				later = append(later, msgs)
+			}
+		}
+		h.api.ReplaceState(ircServer, ircStore, lag)
+		type res struct {
+			code int
+			body []byte
+		}
+		done := make(chan res, 1)
+		go func() {
+			code, body, _ := h.do("GET", "/robustirc/v1/"+h.sid(f[1])+"/messages?lastseen="+f[3], nil, hdr, "", time.Duration(ms)*time.Millisecond)
+			done <- res{code, body}
+		}()
+		time.Sleep(time.Duration(ms/4) * time.Millisecond)
+		for _, msgs := range later {
+			lag.Add(msgs)
+			time.Sleep(2 * time.Millisecond)
+		}
+		r := <-done
+		h.api.ReplaceState(ircServer, ircStore, real)
+		for k := 0; k < 3; k++ {
+			lag.InterruptGetNext()
+			time.Sleep(20 * time.Millisecond)
+		}
+		lag.Close()
+		var got []string
+		dec := json.NewDecoder(bytes.NewReader(r.body))
+		for {
+			var m robust.Message
+			if err := dec.Decode(&m); err != nil {
+				break
+			}
+			if m.Type == robust.Ping {
+				continue
+			}
+			got = append(got, fmt.Sprintf("%d.%d:%s", m.Id.Id, m.Id.Reply, ihex([]byte(m.Data))))
+		}
+		return fmt.Sprintf("status=%d lastseen=%s lagid=%d msgs=%s", r.code, f[3], lagid, strings.Join(got, ","))
 	case "death": // death <name> <cmid>: an entry which was rewritten as message of death (as a crashed apply leaves it)
 		id, _ := strconv.ParseUint(h.sid(f[1]), 0, 64)
 		before := h.lastIndex()
